@@ -55,6 +55,7 @@ MethodFails(e) ==
   CASE e.name = "EncryptFRMPayload" ->
          IF pre.frm = <<>> THEN (IF ok /\ post = pre THEN <<>> ELSE <<"C03.method">>)
          ELSE IF ~frmOK THEN (IF ~ok \/ post # pre THEN <<>> ELSE <<"C03.method">>)       \* refusing is fine; silent success is not
+         ELSE IF pre.fport = <<>> /\ ~ok THEN <<>>                                       \* payload without FPort: refusing is fine
          ELSE IF ~ok THEN <<"C03.method">>
          ELSE IF post.frm = RawOr(EncFRM(e.key, db, da, pre.fcnt, frmB)) /\ restSame(pre, post, "frm") THEN <<>> ELSE <<"C03.method">>
     [] e.name = "DecryptFRMPayload" ->
